@@ -40,21 +40,125 @@ RULE = ("seeded random metadata worlds (1-3 sources, 1-3 SPs, 0-2 IdPs, 1-3 endp
         "'//', backslash, percent-encoding both ways, query order), leading white space, embedded in another URL), the "
         "locations of other SPs / other bindings and their trimmed-and-continued forms, look-alike requester ids; the "
         "compact neighbourhood of 2 consumer-service locations per SP as AssertionConsumerServiceURL; samples of both in "
-        "the ordinary worlds. non-trivial = distinct (operation kind, input classes, outcome kind)")
+        "the ordinary worlds. Round 3 (own generator again): SEQUENCES on long-lived entities - every world gets a later "
+        "version (kinds in turn: hosts moved, endpoints retired, other binding / index / ResponseLocation, entity removed or "
+        "role lost, sources reordered / dropped, another world with the same ids, emptied, identical; thorough: 3 kinds) and "
+        "three sequences (IdP side, SP side, discovery service) on TWO fresh entities of one process (one starts with each "
+        "version): all operations that make sense on either version (stratified by shape) on both entities interleaved, the "
+        "entities swap their metadata through Entity.reload_metadata, everything again, a refresh that fails (6 kinds of bad "
+        "configuration), a sample, back to the first version, a sample; each step is judged against the metadata in force "
+        "for the entity that handled it. non-trivial = distinct (operation kind, input classes, outcome kind); for a "
+        "sequence (role, refresh kind, set of outcome changes across a refresh)")
+def source2_items():
+    """What translator v2 (harness/py2coq2.py) re-translates from the source text on every run -> coq/gen/C08Src2.v;
+    C08/Source2.v proves each definition equal to the model function it mirrors.  External calls (the per-source
+    lookups, the per-service wrapper of the store, generator helpers, next()) are extra parameters = hypotheses."""
+    import os
+    from harness import env
+    src = os.path.join(env.SRC, "saml2")
+    ent, mds, cb = (os.path.join(src, f) for f in ("entity.py", "mdstore.py", "client_base.py"))
+    soap = '(PStr "urn:oasis:names:tc:SAML:2.0:bindings:SOAP")'
+    return [
+        (ent, "Entity.pick_binding", {
+            "name": "src2_pick_binding", "params": ["self", "service", "bindings", "descr_type", "request", "entity_id"],
+            "extra_params": [("sfunc", "pyval -> pyval -> pyval -> pyval"), ("all_locations_", "pyval -> pyval"),
+                             ("next_", "pyval -> pyval -> pyval")],
+            "attr_errors": True,
+            "calls": {"sfunc": lambda a: "(sfunc %s %s %s)" % tuple(a),
+                      "all_locations": lambda a: "(all_locations_ %s)" % a[0],
+                      "next": lambda a: "(next_ %s %s)" % tuple(a)}}),
+        (ent, "Entity.response_args", {
+            "name": "src2_response_args", "params": ["self", "message", "bindings", "descr_type"],
+            "extra_params": [("pick_binding_", "pyval -> pyval -> pyval -> pyval -> pyval")],
+            "globals": {"BINDING_SOAP": soap},
+            "classes": {c: [c] for c in ["AuthnRequest", "LogoutRequest", "AttributeQuery", "ManageNameIDRequest",
+                                         "AssertionIDRequest", "ArtifactResolve", "NameIDMappingRequest"]},
+            "calls": {"self.pick_binding": lambda a, kw: "(pick_binding_ %s %s %s %s)" % (a[0], a[1], kw["descr_type"],
+                                                                                        kw["request"])}}),
+        (cb, "Base._sso_location", {
+            "name": "src2_sso_location", "params": ["self", "entityid", "binding"],
+            "extra_params": [("sso_service", "pyval -> pyval -> pyval"), ("with_descriptor_", "pyval -> pyval"),
+                             ("locations_", "pyval -> pyval"), ("next_", "pyval -> pyval -> pyval")],
+            "exc_parents": {"IdpUnspecified": ["SAMLError", "Exception"]},
+            "calls": {"self.metadata.single_sign_on_service": lambda a: "(sso_service %s %s)" % tuple(a),
+                      "self.metadata.with_descriptor": lambda a: "(with_descriptor_ %s)" % a[0],
+                      "locations": lambda a: "(locations_ %s)" % a[0],
+                      "next": lambda a: "(next_ %s %s)" % tuple(a)}}),
+        (mds, "MetadataStore.service", {
+            "name": "src2_store_service", "params": ["self", "entity_id", "typ", "service", "binding"],
+            "probe_subscripts": True,
+            "extra_params": [("md_service", "pyval -> pyval -> pyval -> pyval -> pyval -> pyval")],
+            "exc_parents": {"UnsupportedBinding": ["SAMLError", "Exception"], "UnknownSystemEntity": ["SAMLError", "Exception"]},
+            "calls": {"_md.service": lambda a: "(md_service v__md %s %s %s %s)" % tuple(a)}}),
+        (mds, "MetadataStore.ext_service", {
+            "name": "src2_store_ext_service", "params": ["self", "entity_id", "typ", "service", "binding"],
+            "extra_params": [("md_ext_service", "pyval -> pyval -> pyval -> pyval -> pyval -> pyval")],
+            "exc_parents": {"UnsupportedBinding": ["SAMLError", "Exception"], "UnknownSystemEntity": ["SAMLError", "Exception"]},
+            "calls": {"_md.ext_service": lambda a: "(md_ext_service v__md %s %s %s %s)" % tuple(a)}}),
+    ]
+
+
+def regenerate_source2(gen_path):
+    """py2coq2.regenerate with one LOCAL pre-pass (translator v2 has no bare-subscript expression statement): in the
+    items marked probe_subscripts, `X[K]` used as a statement - evaluated for its KeyError only, as `_md[entity_id]`
+    in MetadataStore.service - becomes `_probe = X[K]`: the same evaluation, the same exceptions, one unused local.
+    Fail-closed like py2coq2.regenerate: what cannot be translated becomes a poisoned definition."""
+    import ast
+    from harness import common, py2coq2
+
+    class Probe(ast.NodeTransformer):
+        def visit_Expr(self, node):
+            if isinstance(node.value, ast.Subscript):
+                return ast.copy_location(ast.Assign(targets=[ast.Name(id="_probe", ctx=ast.Store())], value=node.value,
+                                                    lineno=node.lineno), node)
+            return node
+
+    items = source2_items()
+    out, failed = [py2coq2.HEADER], []
+    for path, qual, spec in items:
+        try:
+            with open(path) as f:
+                fn = py2coq2.find_function(ast.parse(f.read()), qual)
+            if spec.get("probe_subscripts"):
+                fn = ast.fix_missing_locations(Probe().visit(fn))
+            out.append(py2coq2.translate_def(fn, spec, "%s:%s" % (path.split("/src/")[-1], qual)))
+        except (py2coq2.Untranslatable, OSError, SyntaxError) as e:
+            failed.append("%s: %s" % (qual, e))
+            out.append(py2coq2.poison(qual, spec, str(e)))
+    changed = common.write_if_changed(gen_path, "\n".join(out))
+    return {"translated": [q for _, q, _ in items], "untranslatable": failed, "changed": changed,
+            "obligations": len(items), "discharged": len(items) - len(failed)}
+
+
 def regenerate_tables(ctx):
-    """Translator: DiscoveryServer.verify_return as it reads NOW -> coq/gen/C08Src.v; C08/Source.v proves it equal to the
-    model (the metadata lookup discovery_response is a parameter)."""
+    """Translator v1: DiscoveryServer.verify_return as it reads NOW -> coq/gen/C08Src.v; C08/Source.v proves it equal to the
+    model (the metadata lookup discovery_response is a parameter).  Translator v2: source2_items() -> coq/gen/C08Src2.v;
+    C08/Source2.v proves each function equal to the model."""
     import os
     from harness import common, env, py2coq
-    return py2coq.regenerate(os.path.join(common.GEN, "C08Src.v"), [
+    src = py2coq.regenerate(os.path.join(common.GEN, "C08Src.v"), [
         (os.path.join(env.SRC, "saml2", "discovery.py"), "DiscoveryServer.verify_return",
          {"name": "src_verify_return", "params": ["self", "entity_id", "return_url"],
           "extra_params": [("discovery_response", "pyval -> pyval")],
           "calls": {"self.metadata.discovery_response": lambda a: "(discovery_response %s)" % a[0]}})])
+    src2 = regenerate_source2(os.path.join(common.GEN, "C08Src2.v"))
+    out = dict(src)
+    out.update({"obligations": src["obligations"] + src2["obligations"], "discharged": src["discharged"] + src2["discharged"],
+                "untranslatable": list(src.get("untranslatable", [])) + list(src2["untranslatable"]),
+                "changed": bool(src.get("changed")) or bool(src2["changed"]),
+                "translated": list(src.get("translated", [])) + list(src2["translated"]), "source": src, "source2": src2})
+    return out
 
 
 TRUSTED = ["source-to-Gallina translator harness/py2coq.py + coq/theories/Base/Py.v (DiscoveryServer.verify_return is re-translated "
            "from the source text on every run; c08_source_verify_return proves it equal to the model)",
+           "source-to-Gallina translator v2 harness/py2coq2.py + coq/theories/Base/Py2.v, with the local pre-pass of "
+           "harness/c08.py regenerate_source2 (`X[K]` as a statement -> `_probe = X[K]`): Entity.pick_binding, "
+           "Entity.response_args, Base._sso_location, MetadataStore.service, MetadataStore.ext_service are re-translated "
+           "from the source text on every run (coq/gen/C08Src2.v); c08_source2_pick_binding / _response_args / "
+           "_sso_location / _store_service / _store_ext_service prove them equal to the model for all inputs (external "
+           "calls - per-source lookups, the per-service wrapper, all_locations / locations / next - are hypotheses; "
+           "_sso_location: not the 'too many IdPs' raise)",
            "metadata templates and abstraction in harness/c08.py (abstract metadata = what the templates render)",
            "observation wrappers around Entity.apply_binding / create_logout_request / send in harness/c08.py"]
 ASSUMPTIONS = ["every endpoint element carries non-empty Binding and Location attributes; no AttributeConsumingService "
@@ -566,7 +670,21 @@ def generate(ctx):
         cases.extend(neighbourhood_cases(sub, w, True, thorough))
     for w in worlds:
         cases.extend(neighbourhood_cases(sub, w, False, thorough))
-    publish_definitions(worlds + xworlds)
+    # ---- strengthening round 3: sequences on long-lived entities (again a generator of its own, so that everything
+    # above draws what it drew before).  Every world gets one later version (the kinds in turn; thorough: 3 kinds);
+    # the sequence cases are spread over the case list (they take longer than a single operation)
+    sub3 = random.Random(rng.getrandbits(64))
+    seqs, versions = [], []
+    for j, w in enumerate(worlds + xworlds):
+        for t in range(3 if thorough else 1):
+            kind = REFRESH_KINDS[(j + 3 * t) % len(REFRESH_KINDS)]
+            w2 = refresh(sub3, w, kind, 1000 + len(versions))
+            versions.append(w2)
+            seqs.extend(sequence_cases(sub3, w, w2, kind, thorough))
+    stride = max(1, len(cases) // max(1, len(seqs)))
+    for i, c in enumerate(seqs):
+        cases.insert(min(len(cases), i * (stride + 1)), c)
+    publish_definitions(worlds + xworlds + versions)
     return cases
 
 
@@ -625,6 +743,228 @@ def neighbourhood_cases(rng, w, shaped, thorough):
     return out
 
 
+# ---- SEQUENCES on long-lived entities (strengthening round 3).  Sections A-I create one operation per case and run it
+# on a store that was loaded once.  A running IdP / SP / discovery service handles many operations, its metadata is
+# refreshed in between (Entity.reload_metadata), and several entities live in one process.  The neighbourhood: what
+# an entity answers must depend on the metadata it holds NOW and on nothing else - not on what was looked up before
+# (memo / cache per store, per entity, per class, per module; positive or negative), not on the order or the number of
+# the look-ups, not on the other entities of the process, not on a refresh that failed.
+REFRESH_KINDS = ["moved", "retired", "rebound", "entity-removed", "reordered", "other", "emptied", "same"]
+
+
+def _move(loc):
+    return loc.replace("://", "://new.", 1)
+
+
+def refresh(rng, w, kind, wid):
+    """a later VERSION of world w (same entity ids, as a metadata refresh would deliver it)"""
+    import copy
+    if kind == "other":
+        return gen_world(rng, wid, n_idp=rng.choice([1, 2, 2]))
+    v = copy.deepcopy(w)
+    v["wid"] = wid
+    if kind == "emptied":
+        v["sources"] = []
+        return v
+    ents = [e for s in v["sources"] for e in s["ents"]]
+    if kind == "moved":
+        # some entities moved all their endpoints to another host
+        hit = [e for e in ents if rng.random() < 0.7] or ents[:1]
+        for e in hit:
+            for d in e["descs"]:
+                for _, x in d["eps"]:
+                    x["l"] = _move(x["l"])
+                    if x["r"] is not None:
+                        x["r"] = _move(x["r"])
+                d["disco"] = [(b, _move(l)) for b, l in d["disco"]]
+    elif kind == "retired":
+        # endpoints were withdrawn (possibly all of a binding / of a service)
+        n = 0
+        for e in ents:
+            for d in e["descs"]:
+                drop = [rng.random() < 0.4 for _ in d["eps"]]
+                keep = [x for x, dr in zip(d["eps"], drop) if not dr]
+                # a role descriptor without its mandatory service is invalid (the whole entity would not load): the
+                # LAST endpoint of that service survives
+                must = "assertion_consumer_service" if d["role"] == "spsso_descriptor" else "single_sign_on_service"
+                if not any(x[0] == must for x in keep):
+                    last = [i for i, x in enumerate(d["eps"]) if x[0] == must][-1:]
+                    keep = [x for i, x in enumerate(d["eps"]) if not drop[i] or i in last]
+                n += len(d["eps"]) - len(keep)
+                d["eps"] = keep
+                keepd = [x for x in d["disco"] if rng.random() >= 0.4]
+                n += len(d["disco"]) - len(keepd)
+                d["disco"] = keepd
+        if not n:
+            for e in ents:
+                for d in e["descs"]:
+                    must = "assertion_consumer_service" if d["role"] == "spsso_descriptor" else "single_sign_on_service"
+                    if len([x for x in d["eps"] if x[0] == must]) > 1 or (d["eps"] and d["eps"][0][0] != must):
+                        d["eps"] = d["eps"][1:]
+                    d["disco"] = d["disco"][1:]
+    elif kind == "rebound":
+        # the same locations under another binding / another index, ResponseLocation added or dropped
+        swap = {P: R, R: P, S: P, A: R}
+        for e in ents:
+            for d in e["descs"]:
+                for svc, x in d["eps"]:
+                    if rng.random() < 0.6:
+                        x["b"] = swap.get(x["b"], P)
+                    if x["i"] is not None and x["i"].isdigit():
+                        x["i"] = str(int(x["i"]) + 1)
+                    if svc != "single_sign_on_service" and rng.random() < 0.3:
+                        x["r"] = None if x["r"] is not None else x["l"] + "/resp"
+                d["disco"] = [(D if b != D else rng.choice([D, P]), l) for b, l in d["disco"]]
+    elif kind == "entity-removed":
+        # an entity left the federation, another one lost a role
+        ids = sorted({e["id"] for e in ents})
+        gone = rng.choice(ids)
+        for s_ in v["sources"]:
+            s_["ents"] = [e for e in s_["ents"] if e["id"] != gone]
+        v["sources"] = [s_ for s_ in v["sources"] if s_["ents"]]
+        for e in [e for s_ in v["sources"] for e in s_["ents"]]:
+            if len(e["descs"]) > 1 and rng.random() < 0.7:
+                e["descs"] = e["descs"][:1] if rng.random() < 0.5 else e["descs"][1:]
+    elif kind == "reordered":
+        # the sources come in another order / one source is gone: another "first source that has the entity"
+        v["sources"].reverse()
+        if len(v["sources"]) > 1 and rng.random() < 0.5:
+            v["sources"].pop(0)
+    return v
+
+
+def _dedupe(ops):
+    import json
+    seen, out = set(), []
+    for o in ops:
+        k = json.dumps(o, sort_keys=True)
+        if k not in seen:
+            seen.add(k)
+            out.append(o)
+    return out
+
+
+def _stratified(rng, ops, cap):
+    """at most cap operations, every SHAPE (operation kind, request class, entity given / None / unknown) kept as long as
+    there is room: the few operations that go through another part of the store (with_descriptor for the sole IdP,
+    an unknown entity) must not be sampled away"""
+    groups = {}
+    for o in ops:
+        e = o.get("eid", o.get("issuer")) if "eids" not in o else (o["eids"] or [None])[0]
+        key = (o["k"], o.get("cls"), "none" if e is None else "unknown" if e == UNKNOWN else "given")
+        groups.setdefault(key, []).append(o)
+    for g in groups.values():
+        rng.shuffle(g)
+    out = []
+    while len(out) < cap and any(groups.values()):
+        for key in list(groups):
+            if groups[key] and len(out) < cap:
+                out.append(groups[key].pop())
+    return out
+
+
+def idp_side_ops(rng, w, prefs):
+    """operations an IdP with metadata w is asked to handle, most of them successful on w"""
+    out = []
+    sps = ids_with(w, "spsso_descriptor")
+    idps = ids_with(w, "idpsso_descriptor")
+    for sp in sps:
+        acs = eps_of(w, sp, "spsso_descriptor", "assertion_consumer_service")
+        for ep in rng.sample(acs, min(len(acs), 2)):
+            out.append(answer_op("AuthnRequest", sp, ep["l"], None, ep["b"], []))                 # by URL
+            out.append(answer_op("AuthnRequest", sp, ep["l"], None, None, rng.choice([[], [ep["b"]], [P, R]])))
+            if ep["i"] is not None:
+                out.append(answer_op("AuthnRequest", sp, None, ep["i"], ep["b"], []))             # by index
+        for b in sorted({e["b"] for e in acs})[:2]:
+            out.append(answer_op("AuthnRequest", sp, None, None, b, []))                          # default endpoint
+        out.append(answer_op("AuthnRequest", sp, None, None, None, [], prefs=prefs))
+        out.append(answer_op("AuthnRequest", sp, "https://evil.example.com/acs", None, P, []))
+        for cls in ("LogoutRequest", "ManageNameIDRequest"):
+            out.append(answer_op(cls, sp, None, None, None, rng.choice([[R], [P], [S, P], [R, P], [BOGUS, R, P]])))
+        out.append({"k": "pick", "svc": rng.choice(["assertion_consumer_service", "single_logout_service"]), "bindings": [],
+                    "descr": "", "eid": sp, "etype": "idp", "prefs": prefs})
+    for e in idps[:1] + [UNKNOWN]:
+        out.append(answer_op("LogoutRequest", e, None, None, None, [R, P], descr="idpsso"))
+    for o in out:
+        if o["k"] == "answer":
+            o["prefs"] = prefs
+            o["etype"] = "idp"
+    return out
+
+
+def sp_side_ops(rng, w, prefs):
+    out = []
+    idps = ids_with(w, "idpsso_descriptor")
+    sps = ids_with(w, "spsso_descriptor")
+    for e in idps + [None]:
+        for b in (R, P):
+            out.append({"k": "sso", "eid": e, "binding": b})
+        out.append({"k": "negotiate", "eid": e, "binding": None})
+        out.append({"k": "negotiate", "eid": e, "binding": rng.choice([P, S, A])})
+        out.append({"k": "authenticate", "eid": e, "binding": rng.choice([R, R, P])})
+    for e in idps:
+        out.append({"k": "logout", "eids": [e], "expected": None, "prefs": prefs})
+        out.append({"k": "logout", "eids": [e], "expected": rng.choice([R, P, S]), "prefs": prefs})
+        # the SP answers a LogoutRequest of the IdP
+        out.append(answer_op("LogoutRequest", e, None, None, None, rng.choice([[R], [P], [S, P], [R, P]]), etype="sp", prefs=prefs))
+        out.append({"k": "pick", "svc": "single_sign_on_service", "bindings": [], "descr": "", "eid": e, "etype": "sp",
+                    "prefs": prefs})
+    if idps:
+        out.append({"k": "logout", "eids": list(idps) + sps[:1], "expected": None, "prefs": prefs})
+    out.append({"k": "sso", "eid": UNKNOWN, "binding": R})
+    return out
+
+
+def disco_side_ops(rng, w):
+    out = []
+    for e in ids_with(w, "spsso_descriptor"):
+        for L in sorted(set(disco_registered(w, e)))[:3]:
+            out += [{"k": "disco", "eid": e, "url": L}, {"k": "disco", "eid": e, "url": L + "?x=1"},
+                    {"k": "disco", "eid": e, "url": L[:-1]}]
+        out.append({"k": "disco", "eid": e, "url": "https://evil.example.com/disco"})
+    out.append({"k": "disco", "eid": UNKNOWN, "url": "https://sp1.example.org/disco"})
+    return out
+
+
+def sequence_cases(rng, w, w2, kind, thorough):
+    """three sequences (IdP side, SP side, discovery service) over the metadata versions w and w2.  Entity 0 starts
+    with w, entity 1 (same kind, same process) with w2; the operations are those that make sense on w or on w2, so
+    that every look-up is made against the version that registers it and against the one that does not, before and
+    after each refresh: all operations on both entities; the two entities SWAP their metadata; all operations again;
+    a refresh that fails; a sample again; entity 0 back to w; a sample again."""
+    out = []
+    prefs = rng.choice(["default", "default", "alt", "noacs"])
+    for role, ekind, ops in (("idp", "idp", idp_side_ops(rng, w, prefs) + idp_side_ops(rng, w2, prefs)),
+                             ("sp", "sp", sp_side_ops(rng, w, prefs) + sp_side_ops(rng, w2, prefs)),
+                             ("disco", "disco", disco_side_ops(rng, w) + disco_side_ops(rng, w2))):
+        ops = _stratified(rng, _dedupe(ops), 40 if thorough else 12)
+        steps = []
+
+        def phase(n0, n1):
+            part = [(0, o) for o in (ops if n0 is None else rng.sample(ops, min(len(ops), n0)))]
+            part += [(1, o) for o in rng.sample(ops, min(len(ops), n1))]
+            rng.shuffle(part)
+            for k, o in part:
+                steps.append({"s": "op", "e": k, "op": o})
+
+        phase(None, len(ops) // 2)
+        first, second = ({"s": "reload", "e": 0, "world": w2}, {"s": "reload", "e": 1, "world": w})
+        steps.extend([first, second] if rng.random() < 0.5 else [second, first])
+        phase(None, len(ops) // 2)
+        how = BAD_CONFS[rng.randrange(len(BAD_CONFS))]
+        steps.append({"s": "badreload", "e": 0, "how": how, "world": w})
+        if rng.random() < 0.5:
+            steps.append({"s": "badreload", "e": 1, "how": BAD_CONFS[rng.randrange(len(BAD_CONFS))], "world": w2})
+        phase(5, 2)
+        steps.append({"s": "reload", "e": 0, "world": w})
+        phase(5, 2)
+        p = prefs if role != "disco" else "default"
+        op = {"k": "seq", "role": role, "refresh": kind,
+              "slots": [{"kind": ekind, "prefs": p, "world": w}, {"kind": ekind, "prefs": p, "world": w2}], "steps": steps}
+        out.append(mk(w, op, "seq-%s:%s" % (role, kind)))
+    return out
+
+
 # ------------------------------------------------------------------------------------------- running the real code
 _CACHE = {}
 ERR = {"UnknownSystemEntity": "EUnknownEntity", "UnsupportedBinding": "EUnsupported", "SAMLError": "ESaml",
@@ -644,10 +984,8 @@ def check_loaded(ent, w):
         raise RuntimeError("metadata world %s not loaded as rendered: %r vs %r" % (w["wid"], got, want))
 
 
-def get_entity(kind, w, prefs="default"):
-    key = (kind, w["wid"], prefs, repr(w["sources"]))
-    if key in _CACHE:
-        return _CACHE[key]
+def make_entity(kind, w, prefs="default"):
+    """a NEW entity object of the given kind whose metadata store is loaded with world w"""
     xml = render_world(w)
     if kind == "idp":
         ent = world.make_idp(metadata_xml=xml, preferred_binding=dict(PREFS[prefs]))
@@ -663,6 +1001,14 @@ def get_entity(kind, w, prefs="default"):
                 "metadata": {"inline": xml}})
         ent = DiscoveryServer(config=c)
     check_loaded(ent, w)
+    return ent
+
+
+def get_entity(kind, w, prefs="default"):
+    key = (kind, w["wid"], prefs, repr(w["sources"]))
+    if key in _CACHE:
+        return _CACHE[key]
+    ent = make_entity(kind, w, prefs)
     if len(_CACHE) > 40:
         _CACHE.clear()
     _CACHE[key] = ent
@@ -760,13 +1106,14 @@ class Tap:
         del self.ent.send
 
 
-def observe(case):
-    w, op = case["world"], case["op"]
+def run_one(op, getent):
+    """one operation of the property on the real code; getent(kind, prefs) gives the entity that handles it
+    (prefs None: the operation does not read the configured preferences)"""
     k = op["k"]
     obs = {"wire": True, "exc": None}
     try:
         if k == "answer":
-            ent = get_entity(op["etype"], w, op["prefs"])
+            ent = getent(op["etype"], op["prefs"])
             msg = build_message(op)
             b = op["bindings"] or (None if op["none_arg"] else [])
             info = ent.response_args(msg, b, descr_type=op["descr"])
@@ -775,14 +1122,14 @@ def observe(case):
             else:
                 obs["out"] = ["NoDest"]
         elif k == "pick":
-            ent = get_entity(op["etype"], w, op["prefs"])
+            ent = getent(op["etype"], op["prefs"])
             b, d = ent.pick_binding(op["svc"], op["bindings"] or None, op["descr"], entity_id=op["eid"])
             obs["out"] = ["Dest", b, d]
         elif k == "sso":
-            ent = get_entity("sp", w)
+            ent = getent("sp", None)
             obs["out"] = ["Loc", ent._sso_location(op["eid"], op["binding"])]
         elif k in ("negotiate", "authenticate"):
-            ent = get_entity("sp", w)
+            ent = getent("sp", None)
             with Tap(ent) as tap:
                 if k == "negotiate":
                     _, nb, info = ent.prepare_for_negotiated_authenticate(entityid=op["eid"], binding=op["binding"],
@@ -797,7 +1144,7 @@ def observe(case):
             from saml2 import saml
             from saml2.client_base import LogoutError
 
-            ent = get_entity("sp", w, op["prefs"])
+            ent = getent("sp", op["prefs"])
             nid = saml.NameID(text="user1", format=saml.NAMEID_FORMAT_TRANSIENT)
             with Tap(ent) as tap:
                 tap.mode = "logout"
@@ -813,7 +1160,7 @@ def observe(case):
                 obs["wire"] = tap.wire and [c[2] for c in soap] == tap.sent
                 obs["out"] = ["Trace", [list(c) for c in tap.calls], err]
         elif k == "disco":
-            ent = get_entity("disco", w)
+            ent = getent("disco", None)
             obs["out"] = ["Approved", bool(ent.verify_return(op["eid"], op["url"]))]
         else:
             raise RuntimeError("unknown op " + k)
@@ -823,6 +1170,94 @@ def observe(case):
         obs["out"] = ["Fail", err_of(e)]
         obs["exc"] = type(e).__name__
     return obs
+
+
+
+def observe(case):
+    w, op = case["world"], case["op"]
+    if op["k"] == "seq":
+        return observe_seq(op)
+    return run_one(op, lambda kind, prefs: get_entity(kind, w, prefs or "default"))
+
+
+BAD_CONFS = ["prefix+malformed", "not-xml", "unknown-type", "missing-file", "none", "empty-document"]
+
+
+def bad_conf(how, good_xml):
+    """a metadata configuration that does not load (MetadataStore.reload puts the old metadata back)"""
+    if how == "prefix+malformed":
+        return {"inline": list(good_xml) + ["<md:EntityDescriptor"]}        # the first sources load, the last one raises
+    if how == "not-xml":
+        return {"inline": ["this is not XML"]}
+    if how == "unknown-type":
+        return {"no-such-type": ["x"]}
+    if how == "missing-file":
+        return {"local": ["/nonexistent/c08/metadata.xml"]}
+    if how == "none":
+        return None
+    return {"inline": [""]}
+
+
+def observe_seq(op):
+    """a sequence on long-lived entities: the entities are created HERE (never shared with another case), each with
+    the metadata of its slot; every step is carried out on the entity it names, in order"""
+    ents = [make_entity(s["kind"], s["world"], s["prefs"]) for s in op["slots"]]
+    seen = []
+    wire = True
+    for st in op["steps"]:
+        k = st["e"]
+        slot = op["slots"][k]
+        if st["s"] == "op":
+            def getent(kind, prefs, k=k, slot=slot):
+                if kind != slot["kind"] or (prefs is not None and prefs != slot["prefs"]):
+                    raise RuntimeError("operation %r does not fit entity %r" % (st["op"], (slot["kind"], slot["prefs"])))
+                return ents[k]
+            o = run_one(st["op"], getent)
+            wire = wire and bool(o["wire"])
+            seen.append(["Out", o["out"], bool(o["wire"]), o["exc"]])
+        elif st["s"] == "reload":
+            ok = ents[k].reload_metadata({"inline": render_world(st["world"])})
+            seen.append(["Reload", bool(ok)])
+        elif st["s"] == "badreload":
+            ok = ents[k].reload_metadata(bad_conf(st["how"], render_world(st["world"])))
+            seen.append(["Reload", bool(ok)])
+        else:
+            raise RuntimeError("unknown step " + st["s"])
+    return {"out": ["Seq", seen], "wire": wire, "exc": None}
+
+
+def shrink(case, ctx):
+    """a failing SEQUENCE is cut down before it is reported: first to the shortest failing prefix (the recorded
+    observation of a prefix is the prefix of the recorded observation), then to [the operation, the refreshes of its
+    entity, the operation again] or to the steps of that entity alone when those still fail on the real code"""
+    op = case["op"]
+    if op["k"] != "seq":
+        return case
+    try:
+        from harness import common
+
+        def cut(steps):
+            return mk(case["world"], dict(op, steps=steps), case["tag"])
+
+        def failing(terms):
+            res, _err = common.eval_cases(PID, IMPORTS, CASE_TYPE, RUNNER, terms, shard=400, tag="shrink")
+            return sorted(j for j, code in res if code == 2 or code >= 10)
+
+        seen = observe(case)["out"][1]
+        idx = [i for i, st in enumerate(op["steps"]) if st["s"] == "op"]
+        bad = failing([coq_case(cut(op["steps"][:i + 1]), {"out": ["Seq", seen[:i + 1]], "wire": True}) for i in idx])
+        if not bad:
+            return case
+        f = idx[bad[0]]
+        last = op["steps"][f]
+        mine = [st for st in op["steps"][:f] if st["e"] == last["e"]]
+        for steps in ([last] + [st for st in mine if st["s"] != "op"] + [last], mine + [last], op["steps"][:f + 1]):
+            c = cut(steps)
+            if failing([coq_case(c, observe(c))]):
+                return c
+    except Exception:  # noqa: BLE001
+        pass
+    return case
 
 
 # ------------------------------------------------------------------------------------------- Coq terms
@@ -947,9 +1382,36 @@ def coq_out(out):
     raise ValueError(t)
 
 
+def world_term(w):
+    return _WORLD_NAMES.get(world_key(w)) or coq_world(w)
+
+
 def coq_case(case, obs):
-    wt = _WORLD_NAMES.get(world_key(case["world"])) or coq_world(case["world"])
-    return "C08.Corr.mk %s %s %s %s" % (wt, coq_op(case["op"]), coq_out(obs["out"]), cq(bool(obs["wire"])))
+    op = case["op"]
+    if op["k"] == "seq":
+        # an operation / an outcome occurs several times in a sequence: each distinct term is bound once (let), the
+        # steps name it (elaborating the string literals is what costs time in the case files)
+        names, lets, items = {}, [], []
+
+        def bind(term, prefix):
+            if len(term) < 24:
+                return term
+            if term not in names:
+                names[term] = "%s%d" % (prefix, len(names))
+                lets.append("let %s := %s in" % (names[term], term))
+            return names[term]
+
+        for st, sn in zip(op["steps"], obs["out"][1]):
+            if st["s"] == "op":
+                items.append("(SOp %d %s, SawOut %s %s)" % (st["e"], bind(coq_op(st["op"]), "o_"), bind(coq_out(sn[1]), "r_"),
+                                                          cq(bool(sn[2]))))
+            elif st["s"] == "reload":
+                items.append("(SReload %d %s, SawReload %s)" % (st["e"], bind(world_term(st["world"]), "w_"), cq(bool(sn[1]))))
+            else:
+                items.append("(SReloadFail %d, SawReload %s)" % (st["e"], cq(bool(sn[1]))))
+        slots = "; ".join(bind(world_term(s_["world"]), "w_") for s_ in op["slots"])
+        return "(%s\n C08.Corr.mkseq [%s] [%s])" % ("\n ".join(lets), slots, ";\n  ".join(items))
+    return "C08.Corr.mk %s %s %s %s" % (world_term(case["world"]), coq_op(op), coq_out(obs["out"]), cq(bool(obs["wire"])))
 
 
 # ------------------------------------------------------------------------------------------- evidence
@@ -961,7 +1423,33 @@ def out_kind(obs):
         return "Trace:%d:%s" % (len(o[1]), o[2])
     if o[0] == "Approved":
         return "Approved:%s" % o[1]
+    if o[0] == "Seq":
+        return "Seq"
     return o[0]
+
+
+def seq_transitions(case, obs):
+    """per sequence: for every (entity, operation) the outcomes in the order seen, cut at the refreshes of that entity;
+    -> counts of how an operation's outcome kind changed across a successful refresh"""
+    import json
+    op = case["op"]
+    last = {}
+    tr = {}
+    epoch = [0] * len(op["slots"])
+    for st, sn in zip(op["steps"], obs["out"][1]):
+        k = st["e"]
+        if st["s"] == "op":
+            key = (k, json.dumps(st["op"], sort_keys=True))
+            kind = "Fail" if sn[1][0] == "Fail" else "Trace:%d" % len(sn[1][1]) if sn[1][0] == "Trace" else \
+                "Approved:%s" % sn[1][1] if sn[1][0] == "Approved" else sn[1][0]
+            if key in last and last[key][0] != epoch[k]:
+                same = last[key][2] == sn[1]
+                t = "%s->%s%s" % (last[key][1], kind, "" if not same else " (same answer)")
+                tr[t] = tr.get(t, 0) + 1
+            last[key] = (epoch[k], kind, sn[1])
+        elif sn[1]:
+            epoch[k] += 1
+    return tr
 
 
 def nontrivial(case, obs):
@@ -977,6 +1465,8 @@ def nontrivial(case, obs):
         key = (k, ec, op["binding"], out_kind(obs))
     elif k == "logout":
         key = (k, len(op["eids"]), op["expected"], op["prefs"], out_kind(obs))
+    elif k == "seq":
+        key = (k, case["tag"], tuple(sorted(seq_transitions(case, obs))))
     else:
         key = (k, case["tag"], out_kind(obs))
     return key
@@ -1080,6 +1570,20 @@ def histogram(cases, observed):
             key = "%s/%s" % (t, out_kind(o))
             nbh[key] = nbh.get(key, 0) + 1
     h["neighbourhood"] = nbh
+    sq = {"sequences": 0, "steps": 0, "operations": 0, "refreshes_ok": 0, "refreshes_failed": 0, "by_refresh_kind": {},
+          "outcome_across_refresh": {}}
+    for c, o in zip(cases, observed):
+        if c["op"]["k"] != "seq":
+            continue
+        sq["sequences"] += 1
+        sq["steps"] += len(c["op"]["steps"])
+        sq["operations"] += len([1 for st in c["op"]["steps"] if st["s"] == "op"])
+        sq["refreshes_ok"] += len([1 for sn in o["out"][1] if sn[0] == "Reload" and sn[1]])
+        sq["refreshes_failed"] += len([1 for sn in o["out"][1] if sn[0] == "Reload" and not sn[1]])
+        sq["by_refresh_kind"][c["tag"]] = sq["by_refresh_kind"].get(c["tag"], 0) + 1
+        for t, n in seq_transitions(c, o).items():
+            sq["outcome_across_refresh"][t] = sq["outcome_across_refresh"].get(t, 0) + n
+    h["sequences"] = sq
     h["repeated_entity"]["worlds_with_entity_in_two_sources"] = rep_w
     h["repeated_entity"]["entities_in_two_sources_with_different_endpoints"] = rep_diff
     for c, o in zip(cases, observed):
@@ -1097,6 +1601,10 @@ def histogram(cases, observed):
         h["outcomes"][ok] = h["outcomes"].get(ok, 0) + 1
         if o["exc"]:
             h["exceptions"][o["exc"]] = h["exceptions"].get(o["exc"], 0) + 1
+        if o["out"][0] == "Seq":
+            for sn in o["out"][1]:
+                if sn[0] == "Out" and sn[3]:
+                    h["exceptions"][sn[3]] = h["exceptions"].get(sn[3], 0) + 1
         if o["out"][0] == "Dest":
             b = o["out"][1].split(":")[-1]
             h["dest_by_binding"][b] = h["dest_by_binding"].get(b, 0) + 1
